@@ -90,6 +90,10 @@ def mux_case(draw, nested):
     branches = [draw(gen.chain(tin, MUXB, MUXB.max_depth)) for _ in range(nb)]
     join = draw(st.sampled_from(['merge', 'zip', 'combine_latest']))
     layers = [draw(c02.layer(mono)) for _ in range(draw(st.sampled_from([1, 1, 2])))] if nested else []
+    if nested and draw(st.integers(0, 3)) == 0:
+        # several overlapping windows of several interleaved groups alive at once: key indexes are created with jumps (0, 2, 1, 3)
+        s_ = draw(st.integers(1, 2))
+        layers = [['group_by', draw(st.integers(2, 3))], ['roll', s_ + draw(st.integers(1, 3)), s_]]
     n0 = draw(st.sampled_from([0, 1, 4, 6])) if nested else 0
     if mono:
         items = draw(gen.mono_items(14))
